@@ -9,6 +9,8 @@ props="${*:-$prop}"
 cd /repo || exit 2
 if ! git diff --quiet; then echo "/repo has uncommitted changes; refusing"; exit 2; fi
 git apply $d/patch.diff || { echo "patch does not apply"; exit 2; }
+# evidence written while a seed is applied describes a mutated tree: keep the real one aside and put it back
+evbak=$(mktemp -d /verif/work/evbak.XXXXXX); cp -a /verif/evidence/. $evbak/ 2>/dev/null
 res=""
 for p in $props; do
   out=$(cd /verif && ./check $p quick 2>&1); rc=$?
@@ -20,6 +22,7 @@ for p in $props; do
   (cd /verif && git status --porcelain replays | awk '{print $2}' | xargs -r rm -rf)
 done
 git -C /repo checkout -- .
+rm -rf /verif/evidence; mkdir -p /verif/evidence; cp -a $evbak/. /verif/evidence/; rm -rf $evbak
 python3 - "$d" "$res" <<'PY'
 import json,sys
 d,res=sys.argv[1:3]
